@@ -294,7 +294,7 @@ inline std::string tup_str(const Tup& t) {
 }
 
 inline void run_c18(Chooser& c, vf::Stats& st, bool record, std::string& text) {
-    unsigned site = c.range(0, 4);
+    unsigned site = vf::g_decoder >= 2 ? c.range(0, 5) : c.range(0, 4);
     std::ostringstream tx;
     bool nontrivial = false;
     auto decided_by_length = [](const Tup& a, const Tup& b) {
@@ -303,6 +303,75 @@ inline void run_c18(Chooser& c, vf::Stats& st, bool record, std::string& text) {
         return std::memcmp(&a.s, &b.s, ea < eb ? ea : eb) == 0;
     };
     switch (site) {
+        case 5: {
+            // interior split boundary through the API: 128 ascending keys make the root interior full (15 separators, separator j = first
+            // key of border j + 1); the pivot of the next interior split is separator #7 = key 64.  Border 7 is made of one low key and the
+            // proper prefixes B, Bp, .., Bp^6 of the pivot Bp^7 (or of the link Bp^7..), seven more low keys fill it, and a 16th key between
+            // two prefixes splits it so that the new separator is a proper prefix of the pivot (or the 8-byte key below the link with the
+            // same slice): the side decision of interior_split must send it LEFT of the pivot.
+            const char B = static_cast<char>(0x30 + c.range(0, 0x40));
+            static const char pads[] = {'a', '\x01', '\xff', '\x7f'};
+            const char p = pads[c.range(0, 3)];
+            const bool pivot_is_link = c.chance(1, 3);
+            const unsigned which = c.range(0, 3); // how many prefixes stay below the new separator
+            std::vector<std::string> keys; // ascending
+            const std::string lowbase(1, static_cast<char>(B - 1));
+            for (unsigned i = 0; i < 57; ++i) { keys.push_back(lowbase + std::string(1, static_cast<char>(i + 1))); }
+            std::vector<std::string> fam;
+            for (unsigned k = 0; k < 7; ++k) { fam.push_back(std::string(1, B) + std::string(k, p)); }
+            for (auto& f : fam) { keys.push_back(f); }
+            const std::string pivot = std::string(1, B) + std::string(7, p) + (pivot_is_link ? std::string("zz") : std::string());
+            keys.push_back(pivot);
+            const std::string highbase(1, static_cast<char>(B + 1));
+            for (unsigned i = 0; i < 63; ++i) { keys.push_back(highbase + std::string(1, static_cast<char>(i + 1))); }
+            tx << "interior split boundary: B=" << static_cast<int>(static_cast<unsigned char>(B)) << " pad=" << static_cast<int>(static_cast<unsigned char>(p))
+               << (pivot_is_link ? " pivot is a link" : " pivot is an 8-byte key") << " prefixes_below_separator=" << which;
+            text = tx.str();
+            std::set<std::string> model(keys.begin(), keys.end());
+            if (model.size() != 128) { throw Fail{"harness", "site 5 key construction: " + text}; }
+            tree_instance ti;
+            Token tok{};
+            enter(tok);
+            char v = 'v';
+            auto ins = [&](const std::string& k) {
+                if (put<char>(tok, &ti, k, &v, true, 1) != status::OK) { throw Fail{"harness", "put failed: " + text}; }
+                model.insert(k);
+            };
+            for (auto& k : keys) { ins(k); }
+            // border 7 = {low[56], B, Bp, .., Bp^6}: 8 - which low fillers sort below the prefixes, `which` keys sort between prefixes above
+            // the future separator, the last insert is the 16th entry
+            const std::string low56 = lowbase + std::string(1, static_cast<char>(57));
+            std::vector<std::string> extra;
+            for (unsigned i = 0; i < 7 - which; ++i) { extra.push_back(low56 + std::string(1, static_cast<char>(i + 1))); }
+            // keys between fam[which + j] and fam[which + j + 1]: fam[..] + pad + 0x00 sorts right behind fam[..] + pad's predecessor
+            for (unsigned j = 0; j <= which; ++j) {
+                const std::string& f = fam[which + (j < 6 - which ? j : 0)];
+                extra.push_back(f + std::string(1, p) + std::string(1, '\0') + std::string(1, static_cast<char>('0' + j)));
+            }
+            for (auto& k : extra) {
+                if (model.count(k) == 0) { ins(k); }
+            }
+            vf::WalkOut w = vf::walk(&ti);
+            ++st.checks;
+            if (!w.ok) { throw Fail{"interior_split_side", "structure after the interior split: " + w.err + "; " + text}; }
+            std::vector<std::string> wk;
+            for (auto& e : w.entries) { wk.push_back(e.key); }
+            std::vector<std::string> exp(model.begin(), model.end());
+            ++st.checks;
+            if (wk != exp) { throw Fail{"interior_split_side", "in-order walk after the interior split differs from the sorted key set; " + text}; }
+            for (auto& k : exp) {
+                std::pair<char*, std::size_t> out{};
+                ++st.checks;
+                if (get<char>(&ti, k, out) != status::OK) { throw Fail{"interior_split_side", "key \"" + vf::show(k) + "\" is not found after the interior split; " + text}; }
+            }
+            leave(tok);
+            ti.load_root_ptr()->destroy();
+            delete ti.load_root_ptr(); // NOLINT
+            ti.store_root_ptr(nullptr);
+            nontrivial = w.n_interior >= 3;
+            st.cls(w.n_interior >= 3 ? "interior_split_at_prefix_boundary" : "site5_no_interior_split");
+            break;
+        }
         case 0: { // key_tuple operators on triples
             Tup a = gen_tuple(c);
             Tup b = gen_tuple(c);
